@@ -27,6 +27,7 @@ RULE = (
 )
 RULE += " " + "Added after the seeding rounds: the same source kinds, version / number spellings and absent offsets as C11; part 'unaligned-warp-lengths': warp lengths that are not whole ticks (down to 0.001 beat), every tick judged except the one the exact and the tick-rounded end disagree about, exact half-tick ties avoided."
 RULE += " " + 'Round 6: the same tiny pauses and near-equal tempo changes as C11; after the main pass the same notes are timed under two timing data that differ only in the offset (-1 s and -2 s): every time shifts by exactly 1 s.'
+RULE += " " + 'Round 7: as C11; on every third tick time_at(b) is asked right before hittable(b).'
 ASSUMPTIONS = [
     "exact rational model in vf/model_timing.py; note grid model in vf/gen_notes.py",
     "the input order of notes is the order of the note data text",
